@@ -23,6 +23,7 @@ import (
 
 	"github.com/B1NARY-GR0UP/originium/pkg/logger"
 	"github.com/B1NARY-GR0UP/originium/pkg/skiplist"
+	"github.com/B1NARY-GR0UP/originium/pkg/verifhook"
 	"github.com/B1NARY-GR0UP/originium/types"
 	"github.com/B1NARY-GR0UP/originium/utils"
 	"github.com/B1NARY-GR0UP/originium/wal"
@@ -90,6 +91,7 @@ func (mt *memtable) recover() int64 {
 		if err != nil {
 			mt.logger.Panicf("read wal %v failed: %v", file, err)
 		}
+		verifhook.Event("wal.replay")
 
 		for _, entry := range entries {
 			// record max version
